@@ -28,6 +28,9 @@ def seeded():
             res = "obsolete: " + str(m["obsolete"])[:120]
         else:
             res = ", ".join("%s: %s" % (p, "caught" if r.get("caught") else "MISSED") for p, r in sorted(runs.items())) or "not run"
+        fr = m.get("first_run")
+        if fr and not m.get("obsolete"):
+            res += " (as the checks stood: %s)" % ("caught" if fr.get("caught") else "missed" if fr.get("caught") is False else "not run - " + fr.get("note", "")[:60])
         summ = re.sub(r"\s+", " ", m.get("summary", ""))[:230].replace("|", "\\|")
         out.append("| %s | %s | %s |" % (os.path.basename(d), summ, res))
     return "\n".join(out)
